@@ -10,7 +10,8 @@ from harness.common import Ctx, Inconclusive, drive, guard, watchdog
 RULE = ("Hypothesis draws (search space: 1-6 parameters, bounds of any sign, scales 1e-6..1e6, precision dividing the range or "
         "not; on-grid history with finite losses and ties; one of the nine built-in samplers with admissible options; seed; "
         "1-4 successive sample() calls, returned rows being appended to the history with generated losses as the calibrator "
-        "does). Oracle: shape == (batch_size, d) and every coordinate is an exact element of that parameter's grid array. "
+        "does). Oracle: shape == (batch_size, d), every coordinate is an exact element of that parameter's grid array and lies "
+        "within the declared bounds (+1e-7 end-point tolerance). "
         "Non-trivial = the space has an off-grid upper bound or a non-unit scale, and for stateful samplers >= 2 calls.")
 ASSUMPTIONS = ["histories respect each sampler's documented needs (best-batch: >= batch_size rows; surrogates / CORS: >= 2 distinct "
                "rows and non-constant, not-all-zero losses - third-party fit preconditions); exceptions raised inside "
@@ -78,6 +79,16 @@ def check_sampler(ctx: Ctx, case):
                          f"of the grid (nearest element {near!r}; bounds [{case['space']['lo'][j]!r}, "
                          f"{case['space']['hi'][j]!r}], precision {case['space']['prec'][j]!r})", sub, case)
                 return
+        lo, hi = np.array(case["space"]["lo"]), np.array(case["space"]["hi"])
+        # 1e-7 end-point tolerance plus the rounding drift of the grid itself (C15's subject): tiny against any real overshoot
+        slack = 1e-7 + 1e-9 * np.array(case["space"]["prec"]) + 1e-12 * np.maximum(np.abs(lo), np.abs(hi))
+        bad = (out < lo - slack) | (out > hi + slack)
+        if bad.any():
+            r, j = np.argwhere(bad)[0]
+            ctx.fail("C03/outside-bounds", f"{kind}: call {call}, row {r}, parameter {j}: {out[r, j]!r} lies outside the declared "
+                     f"bounds [{lo[j]!r}, {hi[j]!r}] by more than the 1e-7 end-point tolerance (precision "
+                     f"{case['space']['prec'][j]!r})", sub, case)
+            return
         nl = [case["new_losses"][(k + i) % len(case["new_losses"])] for i in range(len(out))]
         k += len(out)
         pts = np.vstack((pts, out))
